@@ -1,7 +1,11 @@
 import Driver.Common
 import Driver.Ring
+import Driver.Mixer
+import Driver.Xbin
 
 def main (args : List String) : IO UInt32 := do
   match args with
   | ["ring"] => Drv.run DrvRing.comp
+  | ["mixer"] => Drv.run DrvMixer.comp
+  | ["xbin"] => Drv.run DrvXbin.comp
   | _ => IO.eprintln "usage: driver <component>"; return 2
